@@ -48,7 +48,52 @@ def plan(tier):
     for i in range(2 if tier == "quick" else 8):
         # projects whose linked modules sit at positions around and above 256
         descs.append({"kind": "random", "big": True, "wide": i % 2 == 1, "examples": 12 if tier == "quick" else 80, "max_modules": 8, "max_ops": 16})
+    from vlib import subproc
+
+    names = sorted(subproc.VARIANTS)
+    for i in range(2):
+        # a fixed set of link histories (freed slots before live links, both directions) saved and loaded in
+        # interpreters started in other ways
+        descs.append({"kind": "interpreters", "variants": names[i::2]})
     return descs
+
+
+def fixed_link_digests():
+    """{history name: digest of the link tables before saving + after loading (+ after loading the re-saved file)}"""
+    import hashlib
+    import json
+    from io import BytesIO
+
+    from rv.api import Project, m, read_sunvox_file
+
+    histories = {
+        "hole_in_in_table": [(1, 4, 0), (2, 4, 0), (3, 4, 0), (1, 4, 1), (4, 0, 0)],
+        "hole_in_out_table": [(1, 2, 0), (1, 3, 0), (1, 4, 0), (1, 2, 1), (4, 0, 0), (2, 0, 0)],
+        "holes_both": [(1, 4, 0), (2, 4, 0), (3, 4, 0), (2, 1, 0), (2, 3, 0), (2, 4, 1), (1, 4, 1), (1, 4, 0), (4, 0, 0)],
+        "reconnected": [(1, 2, 0), (3, 2, 0), (1, 2, 1), (4, 2, 0), (1, 2, 0), (2, 0, 0)],
+        "fan_in_out": [(a, b, 0) for a in (1, 2, 3) for b in (4, 5)] + [(2, 4, 1), (1, 5, 1), (6, 4, 0), (6, 5, 0), (4, 0, 0), (5, 0, 0)],
+    }
+    out = {}
+    for name, hist in histories.items():
+        try:
+            p = Project()
+            for cls in (m.Amplifier, m.Generator, m.MultiCtl, m.Filter, m.Echo, m.MetaModule):
+                p.new_module(cls)
+            for a, b, dis in hist:
+                if dis:
+                    p.modules[a] >> ~p.modules[b]
+                else:
+                    p.modules[a] >> p.modules[b]
+            t0 = lm.tables(p)
+            data = p.read()
+            q = read_sunvox_file(BytesIO(data))
+            t1 = lm.tables(q)
+            t2 = lm.tables(read_sunvox_file(BytesIO(q.read())))
+            out[name] = hashlib.sha256(json.dumps([lm.stripped_tables(p), t1, t2, sorted(lm.edges_of(q))]).encode()).hexdigest()[:16] + ":" + hashlib.sha256(data).hexdigest()[:12] + (":same" if lm.stripped_tables(q) == lm.stripped_tables(p) else ":differs")
+            del t0
+        except Exception as e:  # noqa: BLE001
+            out[name] = "raised %s: %s" % (type(e).__name__, str(e)[:80])
+    return out
 
 
 def has_cycle(E):
@@ -247,6 +292,15 @@ def run_dfs(ctx, depth, first):
 
 
 def run_shard(ctx, desc):
+    if desc["kind"] == "interpreters":
+        from vlib import subproc
+
+        here = fixed_link_digests()
+        for name, d in here.items():
+            # in this process the loaded tables equal the saved ones (the ordinary oracle, once more on the fixed set)
+            ctx.check(d.endswith(":same"), "C08.fixed_histories", "history %s: %s" % (name, d), key="C08.fixed_histories", recipe={"op": "interpreter", "variant": "plain"})
+        subproc.digests_agree(ctx, "C08", "checks.c08", "fixed_link_digests", desc["variants"])
+        return
     if desc["kind"] == "dfs":
         run_dfs(ctx, desc["depth"], desc["first"])
         return
@@ -268,6 +322,15 @@ def run_shard(ctx, desc):
 
 def replay(ctx, doc):
     r = doc["recipe"]
+    if r.get("op") == "interpreter":
+        from vlib import subproc
+        from vlib.harness import Ctx
+
+        c2 = Ctx(ctx.prop, ctx.tier, ctx.seed, 0, 1, [])
+        subproc.digests_agree(c2, "C08", "checks.c08", "fixed_link_digests", [r["variant"]])
+        if c2.failures:
+            raise PropertyViolation(c2.failures[0]["sub_oracle"], c2.failures[0]["detail"], c2.failures[0]["key"])
+        return
     if "case" in r:
         run_case(ctx, r["case"])
     elif r.get("op") == "dfs":
